@@ -612,6 +612,15 @@ func (g *declGen) positional() *Positional {
 			pa.Req = rapid.SampledFrom([]string{"1", "2", "3", "0-1", "1-2", "2-3", "0-0", "yes", "1-1"}).Draw(t, "restReqVal")
 		}
 		p.Args = append(p.Args, pa)
+		// a field declared after the slice: the slice never stops absorbing,
+		// so this field is never filled (and, when required, always missing)
+		if pct(t, "posAfterRest", 6) {
+			pb := PosArg{Field: g.field("A"), Kind: KString, Name: fmt.Sprintf("after%d", g.nField)}
+			if g.cfg.PosReq && pct(t, "posAfterRestReq", 60) {
+				pb.Req = "yes"
+			}
+			p.Args = append(p.Args, pb)
+		}
 	}
 	if g.cfg.PosSplit && len(p.Args) >= 2 && pct(t, "posSplit", 35) {
 		p.Split = rapid.IntRange(1, len(p.Args)-1).Draw(t, "posSplitAt")
